@@ -1,37 +1,48 @@
-(* C08-F2: the faithful port of the branch-mode AFS code violates the documented
-   definition on a valid tree sequence (a sample that gains its parent at x = 1 inside the
-   single window [0,2)): witness, replayed on the real code by corpus/C08/afs.jsonl. *)
+(* C08-F2 (fixed by 093fdd5).  The definition of the branch-mode AFS is additive over
+   windows (all tree sequences); the repaired port equals the definition on the former
+   witness; the pinned pre-fix port does not (historical record). *)
 From Coq Require Import List ZArith QArith Bool.
-From TskVerif Require Import C08.Model C08.Incremental C08.Afs.
+From TskVerif Require Import C08.Model C08.Incremental C08.Afs C08.WindowProofs.
 Import ListNotations.
 Open Scope Q_scope.
+
+(* every entry of the documented branch AFS adds over [a,b) u [b,c) *)
+Lemma afs_branch_spec_additive time S all segs c : additive (afs_branch_spec time S all segs c).
+Proof. apply tree_stat_additive. Qed.
+
+Lemma afs_branch_spec_refinement time S all segs c gs : chained gs -> Forall incr gs ->
+  Forall2 Qeq (fine_sums (afs_branch_spec time S all segs c) gs)
+              (windowed (afs_branch_spec time S all segs c) (coarse gs)).
+Proof.
+  intros Hc Hi. apply (refinement_additivity _ gs (afs_branch_spec_additive time S all segs c) Hc Hi).
+Qed.
 
 Definition w_time : list Q := [0; 0; 1].
 Definition w_samples : list Z := [0; 1]%Z.
 Definition w_edges : list edge := [mkedge 0 2 2 0; mkedge 1 2 2 1].
 Definition w_segs : list seg := [mkseg 0 1 [2; (-1); (-1)]%Z; mkseg 1 2 [2; 2; (-1)]%Z].
 
-Lemma afs_branch_witness :
+(* the repaired code on the former witness (a sample that gains its parent at x = 1
+   inside the single window [0,2)): equal to the definition, [0; 3; 0] *)
+Example afs_branch_port_agrees_on_former_witness :
   check_afs_port (afs_branch_port w_time w_samples w_samples w_edges [0; 1]%Z [0; 1]%Z 2 [0; 2])
-                 false [0; 2] [[0; 4; 0]] = true
+                 false [0; 2] (afs_branch_spec_table w_time w_samples w_samples w_segs [0; 2]) = true
   /\ qtable_eqb (afs_branch_spec_table w_time w_samples w_samples w_segs [0; 2]) [[0; 3; 0]] = true.
 Proof. split; vm_compute; reflexivity. Qed.
 
-Lemma afs_branch_port_violates_definition :
+Example afs_branch_port_agrees_split_windows :
+  check_afs_port (afs_branch_port w_time w_samples w_samples w_edges [0; 1]%Z [0; 1]%Z 2 [0; 1 # 2; 3 # 2; 2])
+                 false [0; 1 # 2; 3 # 2; 2]
+                 (afs_branch_spec_table w_time w_samples w_samples w_segs [0; 1 # 2; 3 # 2; 2]) = true.
+Proof. vm_compute. reflexivity. Qed.
+
+(* historical: the pinned (pre-fix) port credits [0; 4; 0] *)
+Lemma afs_branch_pinned_violates_definition :
   exists time S all E I O L ws segs,
-    (* segs are the marginal forests of the edge table E *)
     segs = w_segs /\ E = w_edges /\
-    check_afs_port (afs_branch_port time S all E I O L ws) false ws
+    check_afs_port (afs_branch_port_pinned time S all E I O L ws) false ws
                    (afs_branch_spec_table time S all segs ws) = false.
 Proof.
   exists w_time, w_samples, w_samples, w_edges, [0; 1]%Z, [0; 1]%Z, 2, [0; 2], w_segs.
   split; [reflexivity|]. split; [reflexivity|]. vm_compute. reflexivity.
 Qed.
-
-(* with windows that end where the sample joins, the code agrees with the definition
-   (the flush at the window end refreshes last_update): the defect needs the gap and the
-   insertion inside one window *)
-Example afs_branch_agrees_when_window_ends_at_join :
-  check_afs_port (afs_branch_port w_time w_samples w_samples w_edges [0; 1]%Z [0; 1]%Z 2 [0; 1; 2])
-                 false [0; 1; 2] (afs_branch_spec_table w_time w_samples w_samples w_segs [0; 1; 2]) = true.
-Proof. vm_compute. reflexivity. Qed.
